@@ -224,13 +224,13 @@ _ADDED = {
     "C09": " Also (CHUNK): partial reads of a character's continuation bytes are retried in a loop that writes behind the bytes received. Byte offsets (absent for reader input) are read only by the Span accessors / Spanned exposure / miette conversion; the BOM is stripped exactly once on the way to the parser. Every construction of the event source passes stop_at_doc_end = false.",
     "C10": " Also (TAKE-ONCE): the stored I/O error is never taken after seen_doc_end was set in the same pump call (interprocedural set / take ordering). The reader's byte limit is max_reader_input_bytes through Option plumbing only, passed on and stored unchanged; the only silent end of input is the Ok(0) edge of the first-byte read (F59); a reader failure is latched and skip_to_next_document finds no next document after it (F60).",
     "C12": " Also: bare float words derived from the reader's core-parse fallback, Unicode edge blanks (sibling of str::trim), the block indentation indicator is relative and step-guarded and decided on the first non-empty line, long keys take the explicit form. The two float writers only append and emit the same pieces.",
-    "C13": " Also: HINT-RESET, SIBLING over the dash emitters and the variant positioners, and ALIGN / EMPTY, whose four sites are the recorded known findings K1 / K2 (printed as KNOWN-FINDING lines). serialize_newtype_variant clears pending_inline_map on every path to the payload. Every writer of an anchor / alias mark indents first when the line is at its start (itself or at each call site); the deeper indentation of an empty `[]` is decided from current_map_depth and depth alone.",
+    "C13": " Also: HINT-RESET, SIBLING over the dash emitters and the variant positioners, and ALIGN / EMPTY, whose four sites are the recorded known findings K1 / K2 (printed as KNOWN-FINDING lines). serialize_newtype_variant clears pending_inline_map on every path to the payload. Every writer of an anchor / alias mark indents first when the line is at its start (itself or at each call site); the deeper indentation of an empty `[]` is decided from current_map_depth and depth alone. (KEYSINK) Among the methods of the scalar-key sink only serialize_str — the one holding the quoting analysis — writes caller-supplied text; variant names and chars are handed to it.",
     "C14": " Also (PLACEHOLDER): the null delivered for a cyclic alias carries the alias's anchor id. the document scope swaps the whole anchor state out and back (shared with C15: STATE:scope-swaps-whole-state). The variant emitters consume a staged anchor for the variant's own node before writing its label (F61); the scalar emitters consume it before their text, through whichever helper does.",
     "C15": " Also: every guard's Drop performs its restore on every path. The document scope sets the enclosing call's error-location fallback aside (also on unwinding); reset-complete is a path rule per field. with_document_scope takes the whole anchor state out (mem::take at the state's own type) and its guard puts back exactly what was taken (F57).",
-    "C16": " Also (USE-SITE): both event sources consult their use-site override before any other condition. A function that has a use-site parameter builds its replay source with it; reference-less replays are a reviewed table. No path from a consuming call reaches a reference_location() read without a peek(); a node captured and replayed where it is used is replayed at_use_site, fed by a use-site read (F62).",
+    "C16": " Also (USE-SITE): both event sources consult their use-site override before any other condition. A function that has a use-site parameter builds its replay source with it; reference-less replays are a reviewed table. No path from a consuming call reaches a reference_location() read without a peek(); a node captured and replayed where it is used is replayed at_use_site, fed by a use-site read (F62). at_use_site decides `reached through an alias` by comparing whole locations, never a component.",
     "C17": " Also (COLUMN): the two-sided cropper is applied to context lines only, so the stored error line keeps the prefix the renderer indexes. The secondary window measures the caret on the text returned by the cropper and formats every line with the gutter width. Bytes enter the reader's recent-bytes window through push_ring_bytes only, which counts evicted newlines.",
     "C18": " Also (USE-SITE, shared with C16). The validator error-tree walker hands every child its own path (shared reference, or every pushed segment popped before the same push runs again).",
-    "C19": " Also (IDENTITY): expr / term initialise their result from the nested call's value without arithmetic. Parenthesised groups and signs pass the unit flags of their sub-expression on unchanged. A sexagesimal literal multiplies by DEG2RAD only outside unit functions.",
+    "C19": " Also (IDENTITY): expr / term initialise their result from the nested call's value without arithmetic. Parenthesised groups and signs pass the unit flags of their sub-expression on unchanged. A sexagesimal literal multiplies by DEG2RAD only outside unit functions. (OPERATOR) Every binary operator of a level is applied to the accumulator inside the loop, with the operand exactly as the nested call returned it: no arithmetic on operand values elsewhere (left-to-right grouping, a necessary condition of the IEEE result of a/b/c).",
     "C20": " Also (FLOW-KEY): keys of a flow mapping are tested with the flow rules. The key / label quoting rule is used only where `:` follows; the variant serializers write their block form only outside flow collections and open `{Variant: …}` inside. Comment staging / writing is guarded by any form of the in_flow == 0 test; the empty-sequence indentation rule is shared with C13.",
     "C04": " An already-seen key is dropped silently only while flushing merges or under FirstWins; the live duplicate-key error is located at the key's use-site read before it is captured. A scalar key's application tag enters its fingerprint as the raw tag text through Option / string plumbing only.",
     "C11": " The per-document RESET rule of the enforcer is part of this check (shared with C07). Every fallible step of Events::next is a step of Events::peek; the per-document tables are cleared whole.",
